@@ -242,8 +242,23 @@ func genOptCase(r *rng) optCase {
 		return s
 	}
 	out := [][]string{{}, {"--json"}, {"-j"}, {"--json", "--json-version=2"}, {"--json", "--json-version=1"}}[r.n(5)]
-	which := r.n(16)
-	if which >= 12 { // the threshold family gets a third of the cases
+	which := r.n(18)
+	if which >= 16 { // the progress family: its effect shows on stderr only
+		truthy := map[string]bool{"true": true, "yes": true, "on": true, "1": true}
+		if r.coin(1, 2) {
+			v := []string{"true", "false", "yes", "no", "on", "off", "1", "0"}[r.n(8)]
+			opt := "--no-progress"
+			if truthy[v] {
+				opt = "--progress"
+			}
+			return optCase{cfgA: []string{"sizer.progress=" + v}, argsA: []string{"@noforce"}, argsB: []string{"@noforce", opt}, expect: "equal"}
+		}
+		cv := []string{"true", "false", "maybe", ""}[r.n(4)]
+		o := [][]string{{"--progress"}, {"--no-progress"}, {"--progress=false"}, {"--no-progress=false"}, {"--progress", "--no-progress"}, {"--no-progress", "--progress"}}[r.n(6)]
+		args := append([]string{"@noforce"}, o...)
+		return optCase{cfgA: []string{"sizer.progress=" + cv}, argsA: args, argsB: args, expect: "equal"}
+	}
+	if which >= 12 { // the threshold family gets a good share of the cases
 		which = 1
 	}
 	if (which == 0 || which == 1 || which == 5 || which == 8) && r.n(4) != 0 {
@@ -350,13 +365,20 @@ func init() {
 			defer rr.cleanup()
 			run := func(cfg, args []string) (int, []byte, []byte) {
 				env := append(gitEnv(), cfgEnv(cfg)...)
-				o, e, code := runCmd(rr.dir, env, nil, sizerBin(), append([]string{"--no-progress"}, args...)...)
+				if len(args) > 0 && args[0] == "@noforce" { // progress-family cases choose the progress options themselves
+					args = args[1:]
+				} else {
+					args = append([]string{"--no-progress"}, args...)
+				}
+				o, e, code := runCmd(rr.dir, env, nil, sizerBin(), args...)
 				return code, o, e
 			}
 			ca, oa, ea := run(decStrs(in[0]), decStrs(in[1]))
 			cb, ob, eb := run(decStrs(in[2]), decStrs(in[3]))
-			// the deprecation notice of --include-regexp/--refgroup goes to stderr and is not compared
-			return []string{strconv.Itoa(ca), sha(oa), strconv.Itoa(len(oa)), boolStr(len(ea) > 0), strconv.Itoa(cb), sha(ob), strconv.Itoa(len(ob)), boolStr(len(eb) > 0)}
+			// the deprecation notice of --include-regexp/--refgroup goes to stderr and is not compared;
+			// whether progress lines were written is
+			pa, pb := bytes.Contains(ea, []byte("Processing references")), bytes.Contains(eb, []byte("Processing references"))
+			return []string{strconv.Itoa(ca), sha(oa), strconv.Itoa(len(oa)), boolStr(len(ea) > 0), strconv.Itoa(cb), sha(ob), strconv.Itoa(len(ob)), boolStr(len(eb) > 0), boolStr(pa), boolStr(pb)}
 		},
 		class: func(in, res []string) string { return in[4] + "/exit=" + res[0] },
 	})
@@ -483,6 +505,15 @@ func init() {
 			add(bare, env, sizerBin(), sargs...)                                       // bare repository
 			if wt != "" {
 				add(wt, env, sizerBin(), sargs...) // linked worktree
+			}
+			// a relative GIT_DIR from a subdirectory, plainly and with the subdirectory entered through a
+			// symbolic link whose own parent is elsewhere (the kernel resolves "..", the logical $PWD does not)
+			add(filepath.Join(w, "sub", "dir"), envWith(env, "GIT_DIR=../../.git"), sizerBin(), sargs...)
+			os.MkdirAll(filepath.Join(top, "other"), 0o755)
+			link := filepath.Join(top, "other", "link")
+			if os.Symlink(filepath.Join(w, "sub", "dir"), link) == nil {
+				add(link, envWith(env, "GIT_DIR=../../.git", "PWD="+link), sizerBin(), sargs...)
+				add(link, envWith(env, "PWD="+link), sizerBin(), sargs...)
 			}
 			if in[3] != "-" {
 				// the caller's environment names the graft file explicitly
